@@ -166,6 +166,11 @@ fn shrink_candidates(s: &Scenario, structural: bool) -> Vec<Scenario> {
         for j in 0..s.threads[i].prog.len() {
             match &s.threads[i].prog[j] {
                 Op::Spawn { .. } => {}
+                Op::Repeat { times, body } if *times > 1 => {
+                    let mut c = s.clone();
+                    c.threads[i].prog[j] = Op::Repeat { times: times / 2, body: body.clone() };
+                    out.push(c);
+                }
                 Op::Produce { h, n, api, max_retry } if *n > 1 => {
                     let mut c = s.clone();
                     c.threads[i].prog[j] = Op::Produce { h: *h, n: n - 1, api: *api, max_retry: *max_retry };
